@@ -405,7 +405,10 @@ def drop (s : St) : St :=
     if s.detached then s
     else if s.external then releaseThreads (clearAll (disableAll s))
     else match s.status with
-      | .unload => killCur s
+      | .unload =>
+        -- SIGKILL, then `waitpid(pid)`: it returns the stop notification still pending from the PTRACE_SEIZE of the
+        -- stopped child, not the death — the killed child is NOT collected
+        { s with proc := { procDead s.proc with reaped := false } }
       | .inProgress =>
         let s1 := clearAll (disableAll s)
         let n := s1.proc.threads.length
